@@ -177,7 +177,7 @@ def rel_C10(suite):
             b[:pos].decode('utf-8')
         except UnicodeDecodeError:
             return 'error position not on a character boundary'
-        if 'LeftRecursionSentinel' in im[2] and 'leftrec' in c['tags']:
+        if 'LeftRecursionSentinel' in im[2] and 'recfirst' in c['tags']:
             return 'left-recursion sentinel reported'
         if m[0] == 'ERR' and (m[1], m[2]) != (im[1], im[2]):
             return 'reported error (%s, %s) is not the furthest failed attempt (%s, %s)' % (im[1], im[2], m[1], m[2])
